@@ -965,13 +965,25 @@ def k_sup_grid(ctx: Ctx):
                     ctx.witness("pauli-track-rejects", f"a valid Pauli gate list is rejected: {ss}", {"n": n, "a": a, "b": b, "bits_types": [ta, tb], "gates_a": describe_gates(ha), "gates_b": describe_gates(hb)})
                     continue
                 sa, sb = ss
+                copies = []
+                okc, cc = attempt(lambda: (rand_copy(rng, sa, copies, "state a") if rng.random() < 0.3 else sa,
+                                           rand_copy(rng, sb, copies, "state b") if rng.random() < 0.3 else sb))
+                if not okc:
+                    ctx.witness("copy-rejects", f"copying a state handle failed: {cc}", {"n": n, "a": [a, pa], "b": [b, pb], "bits_types": [ta, tb],
+                                                                                         "gates_a": describe_gates(ha), "gates_b": describe_gates(hb)})
+                    continue
+                if read_descr(ss[0]) == (n, a, pa) and read_descr(ss[1]) == (n, b, pb) and (read_descr(cc[0]), read_descr(cc[1])) != ((n, a, pa), (n, b, pb)):
+                    ctx.witness("copy-changes-state", f"the originals read {(n, a, pa)} and {(n, b, pb)}, after copying ({copies}) the handles read {read_descr(cc[0])} and {read_descr(cc[1])}",
+                                {"n": n, "bits_types": [ta, tb], "gates_a": describe_gates(ha), "gates_b": describe_gates(hb), "copies": copies})
+                    continue
+                sa, sb = cc
                 if read_descr(sa) != (n, a, pa) or read_descr(sb) != (n, b, pb):
                     ctx.witness("pauli-track", f"(X·Y)^k histories: expected {(n, a, pa)} and {(n, b, pb)}, got {read_descr(sa)} and {read_descr(sb)}",
-                                {"n": n, "bits_types": [ta, tb], "gates_a": describe_gates(ha), "gates_b": describe_gates(hb)})
+                                {"n": n, "bits_types": [ta, tb], "gates_a": describe_gates(ha), "gates_b": describe_gates(hb), "copies": copies})
                     continue
                 for theta in thetas:
                     for phi in phis:
-                        inp = {"n": n, "a": [a, pa], "b": [b, pb], "bits_types": [ta, tb], "theta": theta, "phi": phi,
+                        inp = {"n": n, "a": [a, pa], "b": [b, pb], "bits_types": [ta, tb], "copies": copies, "theta": theta, "phi": phi,
                                "total_relative_phase_quarter_turns": phi / (2 * QUARTER) + pb - pa}
                         ok, st = attempt(lambda: comp_basis_superposition(sa, sb, theta, phi))
                         n_eval += 1
@@ -1036,6 +1048,7 @@ def oracle_search(ctx: Ctx, budget_s: float, min_iter: int):
                 ctx.count("oracle.reject", type(e).__name__)
             n_eval += 1
             return
+        copies = []
         try:
             # a derivation chain: the list is applied in random chunks, each parent possibly inspected (.circuit) first
             s = ComputationalBasisState(n, bits=as_bits(bt, bits))
@@ -1051,15 +1064,18 @@ def oracle_search(ctx: Ctx, budget_s: float, min_iter: int):
                 else:
                     s = s.with_gates_applied(real_seq(rng.choice("LT"), chunk))
                 k0 = k1
+                if rng.random() < 0.2:
+                    s = rand_copy(rng, s, copies, f"after {k0} gates")
                 if k0 >= len(hist):
                     break
         except Exception as e:  # noqa: BLE001
-            ctx.witness("pauli-track-rejects", f"a valid Pauli gate list is rejected: {exc_name(e)}", {"n": n, "bits": bits, "bits_type": bt, "gates": describe_gates(hist)})
+            ctx.witness(reject_key(exc_name(e)), f"a valid Pauli gate list (handles copied as listed) is rejected: {exc_name(e)} {e if isinstance(e, CopyFailed) else ''}",
+                        {"n": n, "bits": bits, "bits_type": bt, "gates": describe_gates(hist), "copies": copies})
             return
         n_eval += 1
         # (1) bookkeeping = actual action of the Pauli gates on |bits>
         if not isinstance(s, ComputationalBasisState):
-            ctx.witness("pauli-track", "a Pauli-only gate list did not yield a ComputationalBasisState", {"n": n, "bits": bits, "bits_type": bt, "gates": describe_gates(hist)})
+            ctx.witness("pauli-track", "a Pauli-only gate list did not yield a ComputationalBasisState", {"n": n, "bits": bits, "bits_type": bt, "gates": describe_gates(hist), "copies": copies})
             return
         v = vec_of(n, real_seq("L", hist), bits, 0)
         n1, b1, p1 = s._as_tuple()
@@ -1070,21 +1086,23 @@ def oracle_search(ctx: Ctx, budget_s: float, min_iter: int):
         ctx.count("oracle.pauli", ("dense " if n <= 6 else "sparse ") + ("ok" if d <= NUM_TOL else "MISMATCH"))
         if d > NUM_TOL:
             ctx.witness("pauli-track", f"(bits, phase) = ({b1}, {p1}) does not describe the vector obtained by applying the gates (max diff {d:.3g})",
-                        {"n": n, "bits": bits, "bits_type": bt, "gates": describe_gates(hist)}, {"got_bits": b1, "got_phase": p1})
+                        {"n": n, "bits": bits, "bits_type": bt, "gates": describe_gates(hist), "copies": copies}, {"got_bits": b1, "got_phase": p1})
             return
         # the state's own circuit prepares |bits'>
         w = vec_of(n, s.circuit.gates)
         if w is None or orc.sparse_phase_defect(w, v) > NUM_TOL:
             ctx.witness("basis-circuit", "ComputationalBasisState.circuit does not prepare the tracked basis state",
-                        {"n": n, "bits": bits, "bits_type": bt, "gates": describe_gates(hist)}, {"circuit": canon_real_gates(s.circuit.gates)[:300]})
+                        {"n": n, "bits": bits, "bits_type": bt, "gates": describe_gates(hist), "copies": copies}, {"circuit": canon_real_gates(s.circuit.gates)[:300]})
         if mode == "sup":
             bits2 = rng.choice([rand_bits(rng, n), b1 ^ (1 << rng.randrange(n)), b1 ^ (1 << (n - 1)), b1])
             hist2 = build_phase_history(rng, n, bits2, rng.randint(0, 6))
             bt2 = rand_bits_type(rng, n, partner=bt)
             try:
                 s2 = ComputationalBasisState(n, bits=as_bits(bt2, bits2)).with_gates_applied(real_seq("L", hist2))
+                if rng.random() < 0.3:
+                    s2 = rand_copy(rng, s2, copies, "state b")
             except Exception as e:  # noqa: BLE001
-                ctx.witness("pauli-track-rejects", f"a valid Pauli gate list is rejected: {exc_name(e)}", {"n": n, "bits": bits2, "bits_type": bt2, "gates": describe_gates(hist2)})
+                ctx.witness(reject_key(exc_name(e)), f"a valid Pauli gate list (handles copied as listed) is rejected: {exc_name(e)} {e if isinstance(e, CopyFailed) else ''}", {"n": n, "bits": bits2, "bits_type": bt2, "gates": describe_gates(hist2)})
                 return
             if not isinstance(s2, ComputationalBasisState):
                 ctx.witness("pauli-track", "a Pauli-only gate list did not yield a ComputationalBasisState", {"n": n, "bits": bits2, "bits_type": bt2, "gates": describe_gates(hist2)})
@@ -1098,7 +1116,8 @@ def oracle_search(ctx: Ctx, budget_s: float, min_iter: int):
                 ctx.count("oracle.sup", "zero-target-skipped")
                 return
             tgt = {k: z / nt for k, z in tgt.items()}
-            inp = {"n": n, "a": [b1, p1], "b": [b2, p2], "bits_types": [bt, bt2], "theta": theta, "phi": phi}
+            inp = {"n": n, "a": [b1, p1], "b": [b2, p2], "bits_types": [bt, bt2], "theta": theta, "phi": phi,
+                   "start_a": bits, "gates_a": describe_gates(hist), "start_b": bits2, "gates_b": describe_gates(hist2), "copies": copies}
             try:
                 st = comp_basis_superposition(s, s2, theta, phi)
             except Exception as e:  # noqa: BLE001
@@ -1185,12 +1204,52 @@ def oracle_search(ctx: Ctx, budget_s: float, min_iter: int):
 FINDING_APPLY = "apply-circuit-drops-phase"
 
 
+class CopyFailed(Exception):
+    """copy.copy / copy.deepcopy / pickle of a library state object raised (the unchanged tree copies all of them)"""
+
+
 def attempt(f):
     """(True, value) or (False, 'err Class'): exceptions of the real code are outputs"""
     try:
         return True, f()
+    except CopyFailed as e:
+        return False, f"err CopyFailed: {e}"
     except Exception as e:  # noqa: BLE001
         return False, exc_name(e)
+
+
+def _copy_ops():
+    import copy
+    import pickle
+
+    return {
+        "copy.copy": copy.copy,
+        "copy.deepcopy": copy.deepcopy,
+        "pickle": lambda o: pickle.loads(pickle.dumps(o)),
+        "pickle-protocol-0": lambda o: pickle.loads(pickle.dumps(o, 0)),
+        "pickle-protocol-2": lambda o: pickle.loads(pickle.dumps(o, 2)),
+        "deepcopy-inside-list-and-dict": lambda o: copy.deepcopy([o, {"k": o}])[1]["k"],
+        "pickle-inside-tuple-and-list": lambda o: pickle.loads(pickle.dumps((o, [o])))[1][0],
+    }
+
+
+COPY_OPS = _copy_ops()
+
+
+def rand_copy(rng, o, trace=None, where=""):
+    """a state handle replaced by a copy of itself (value objects: the copy must keep denoting the same vector)"""
+    name = rng.choice(sorted(COPY_OPS))
+    try:
+        c = COPY_OPS[name](o)
+    except Exception as e:  # noqa: BLE001
+        raise CopyFailed(f"{name} of a {type(o).__name__} raised {type(e).__name__} ({where})") from e
+    if trace is not None:
+        trace.append(f"{where}: {name}")
+    return c
+
+
+def reject_key(msg) -> str:
+    return "copy-rejects" if "CopyFailed" in str(msg) else "pauli-track-rejects"
 
 
 def indep_descr(n, bits, real_gates):
@@ -1239,8 +1298,10 @@ def as_bits(btype, bits):
     return getattr(np, btype)(int(bits))
 
 
-def chain_derive(rng, n, bits, hist, btype="int"):
-    """ComputationalBasisState(n, bits) with the Pauli specs `hist` applied in random chunks / forms / entry points"""
+def chain_derive(rng, n, bits, hist, btype="int", copies=None):
+    """ComputationalBasisState(n, bits) with the Pauli specs `hist` applied in random chunks / forms / entry points;
+    `copies` (a list, filled with what was done): at random points the handle is replaced by copy.copy / copy.deepcopy /
+    a pickle round trip of itself (also inside containers) and the chain continues on the copy"""
     from quri_parts.core.state import ComputationalBasisState
 
     s = ComputationalBasisState(n, bits=as_bits(btype, bits))
@@ -1249,6 +1310,8 @@ def chain_derive(rng, n, bits, hist, btype="int"):
         k1 = rng.randint(k0 + 1, len(hist))
         if rng.random() < 0.4:
             s.circuit  # noqa: B018 – fills the cached_property slot of the parent
+        if copies is not None and k0 and rng.random() < 0.25:
+            s = rand_copy(rng, s, copies, f"after {k0} gates")
         chunk = hist[k0:k1]
         if len(chunk) == 1 and rng.random() < 0.5:
             s = s.with_pauli_gate_applied(real_seq("L", chunk)[0])
@@ -1257,6 +1320,8 @@ def chain_derive(rng, n, bits, hist, btype="int"):
         k0 = k1
     if rng.random() < 0.2:
         s = s.with_gates_applied(rng.choice([[], ()]))
+    if copies is not None and rng.random() < 0.3:
+        s = rand_copy(rng, s, copies, f"after all {len(hist)} gates")
     return s
 
 
@@ -1326,10 +1391,12 @@ def obj_eq_hash(ctx: Ctx, rng):
     inp = {"a": {"n": n, "bits": bits, "gates": describe_gates(hist)}, "b": {"n": n2, "bits": bits2, "gates": describe_gates(hist2)}}
     t1, t2 = rand_bits_type(rng, n), rand_bits_type(rng, n2)
     inp["a"]["bits_type"], inp["b"]["bits_type"] = t1, t2
-    ok1, s1 = attempt(lambda: chain_derive(rng, n, bits, hist, t1))
-    ok2, s2 = attempt(lambda: chain_derive(rng, n2, bits2, hist2, t2))
+    inp["a"]["copies"], inp["b"]["copies"] = [], []
+    ok1, s1 = attempt(lambda: chain_derive(rng, n, bits, hist, t1, inp["a"]["copies"]))
+    ok2, s2 = attempt(lambda: chain_derive(rng, n2, bits2, hist2, t2, inp["b"]["copies"]))
     if not (ok1 and ok2):
-        ctx.witness("pauli-track-rejects", f"a valid Pauli gate list is rejected: {s1 if not ok1 else s2}", inp)
+        bad = s1 if not ok1 else s2
+        ctx.witness(reject_key(bad), f"a valid Pauli gate list (handles copied as listed) is rejected: {bad}", inp)
         return
     ctx.case(("eq", n, bits, tuple(canon_spec(g) for g in hist), n2, bits2, tuple(canon_spec(g) for g in hist2)), nontrivial=True)
     ctx.count("obj.eq.kind", kind)
@@ -1549,8 +1616,11 @@ def obj_entry_points(ctx: Ctx, rng):
     hist = [rand_pauli_gate(rng, n)[0] for _ in range(rng.randint(0, 5))]
     if mode == "apply-cb":
         inp["bits_type"] = rand_bits_type(rng, n)
-        ok, src = attempt(lambda: chain_derive(rng, n, bits, hist, inp["bits_type"]))
+        inp["copies"] = []
+        ok, src = attempt(lambda: chain_derive(rng, n, bits, hist, inp["bits_type"], inp["copies"]))
         inp["history"] = describe_gates(hist)
+        if not ok and "CopyFailed" in str(src):
+            ctx.witness("copy-rejects", f"copying a state handle failed: {src}", inp)
     elif mode == "apply-general":
         pre = mixed_specs(rng, n, 0, 3)
         ok, src = attempt(lambda: GeneralCircuitQuantumState(n, real_seq(f"C{n}", pre)))
@@ -1599,14 +1669,15 @@ def obj_angle_forms(ctx: Ctx, rng):
     hb = [rand_pauli_gate(rng, n)[0] for _ in range(rng.randint(0, 4))]
     ta = rand_bits_type(rng, n)
     tb = rand_bits_type(rng, n, partner=ta)
-    ok, ss = attempt(lambda: (chain_derive(rng, n, a, ha, ta), chain_derive(rng, n, b, hb, tb)))
+    ca, cb_ = [], []
+    ok, ss = attempt(lambda: (chain_derive(rng, n, a, ha, ta, ca), chain_derive(rng, n, b, hb, tb, cb_)))
     if not ok:
-        ctx.witness("pauli-track-rejects", f"a valid Pauli gate list is rejected: {ss}",
-                    {"n": n, "a": a, "b": b, "bits_types": [ta, tb], "gates_a": describe_gates(ha), "gates_b": describe_gates(hb)})
+        ctx.witness(reject_key(ss), f"a valid Pauli gate list (handles copied as listed) is rejected: {ss}",
+                    {"n": n, "a": a, "b": b, "bits_types": [ta, tb], "gates_a": describe_gates(ha), "gates_b": describe_gates(hb), "copies": [ca, cb_]})
         return
     sa, sb = ss
     if rng.random() < 0.1:
-        sb, b, hb, tb = sa, a, ha, ta
+        sb, b, hb, tb, cb_ = sa, a, ha, ta, ca
     da, db = indep_descr(n, a, real_seq("L", ha)), indep_descr(n, b, real_seq("L", hb))
     x = da[1] ^ db[1]
     if x and x % (1 << 64) == 0:
@@ -1632,7 +1703,8 @@ def obj_angle_forms(ctx: Ctx, rng):
     (theta, th), (phi, ph) = form(ft), form(fp)
     kw = rng.random() < 0.3
     inp = {"n": n, "a": list(da[1:]), "b": list(db[1:]), "theta": repr(theta), "phi": repr(phi), "theta_form": ft, "phi_form": fp,
-           "keywords": kw, "same_object": sa is sb, "bits_types": [ta, tb]}
+           "keywords": kw, "same_object": sa is sb, "bits_types": [ta, tb],
+           "gates_a": describe_gates(ha), "gates_b": describe_gates(hb), "copies": [ca, cb_]}
     tgt = orc.sparse_target(da[1], da[2], db[1], db[2], th, ph)
     nt = orc.sparse_norm(tgt)
     if nt < 1e-3:
@@ -1667,13 +1739,16 @@ def obj_arg_reuse(ctx: Ctx, rng):
     src_kind = rng.choice(["cb", "cb", "general", "vector"])
     hist = [rand_pauli_gate(rng, n)[0] for _ in range(rng.randint(0, 4))]
     bt = rand_bits_type(rng, n)
+    copies = []
     if src_kind == "cb":
-        ok, src = attempt(lambda: chain_derive(rng, n, bits, hist, bt))
+        ok, src = attempt(lambda: chain_derive(rng, n, bits, hist, bt, copies))
     elif src_kind == "general":
         ok, src = attempt(lambda: GeneralCircuitQuantumState(n, real_seq(f"C{n}", hist)))
     else:
         ok, src = attempt(lambda: QuantumStateVector(n, small_vec(rng, n), real_seq(f"C{n}", hist)))
     if not ok:
+        if "CopyFailed" in str(src):
+            ctx.witness("copy-rejects", f"copying a state handle failed: {src}", {"n": n, "bits": bits, "bits_type": bt, "history": describe_gates(hist), "copies": copies})
         return
     v_src = full_vec(src, n)
     pauli_first = rng.random() < 0.5
@@ -1681,7 +1756,7 @@ def obj_arg_reuse(ctx: Ctx, rng):
     second = mixed_specs(rng, n, 1, 2, pauli_only=rng.random() < 0.5)
     form = rng.choice(["L", f"C{n}"])
     arg = real_seq(form, first)
-    inp = {"n": n, "source": src_kind, "bits": bits, "bits_type": bt if src_kind == "cb" else None, "history": describe_gates(hist), "first": describe_gates(first),
+    inp = {"n": n, "source": src_kind, "bits": bits, "bits_type": bt if src_kind == "cb" else None, "copies": copies, "history": describe_gates(hist), "first": describe_gates(first),
            "then_appended": describe_gates(second), "argument": "list" if form == "L" else "QuantumCircuit"}
     ctx.case(("reuse", n, src_kind, bits, form[0], tuple(canon_spec(g) for g in hist + first + second)), nontrivial=True)
     ok1, r1 = attempt(lambda: src.with_gates_applied(arg))
@@ -1719,10 +1794,138 @@ def obj_arg_reuse(ctx: Ctx, rng):
         ctx.witness("derive-mutates-original", "the source state changed", inp)
 
 
+def obj_copies(ctx: Ctx, rng):
+    """library states are value objects: copy.copy / copy.deepcopy / pickle round trips (also inside containers) of a
+    basis state, general state or state vector denote the same vector, compare / hash / print like the original,
+    continue derivations and superpositions like the original, and never disturb the original"""
+    import numpy as np
+
+    from quri_parts.core.state import (ComputationalBasisState, GeneralCircuitQuantumState, QuantumStateVector,
+                                       comp_basis_superposition)
+
+    from oracle import c16_state as orc
+
+    kind = rng.choice(["cb", "cb", "cb", "general", "vector"])
+    op = rng.choice(sorted(COPY_OPS))
+    twice = rng.random() < 0.25  # a copy of a copy
+    touched = rng.random() < 0.5
+
+    def do_copy(o):
+        c = COPY_OPS[op](o)
+        return COPY_OPS[op](c) if twice else c
+
+    if kind == "cb":
+        n = rng.choice([1, 2, 2, 3, 3, 5, 17, 64, 70])
+        bits = rand_bits(rng, n)
+        bt = rand_bits_type(rng, n)
+        hist = [rand_pauli_gate(rng, n)[0] for _ in range(rng.randint(1, 6))]
+        inp = {"class": "ComputationalBasisState", "n": n, "bits": bits, "bits_type": bt, "gates": describe_gates(hist), "copy": op,
+               "copied_twice": twice, "circuit_read_before_copy": touched}
+        ok, s0 = attempt(lambda: chain_derive(rng, n, bits, hist, bt))
+        if not ok or not isinstance(s0, ComputationalBasisState):
+            ctx.witness("pauli-track-rejects", f"a valid Pauli gate list is rejected: {s0}", inp)
+            return
+        d = indep_descr(n, bits, real_seq("L", hist))
+        if read_descr(s0) != d:
+            ctx.witness("pauli-track", f"public (qubit_count, bits, phase) = {read_descr(s0)} but the gates give {d}", inp)
+            return
+        if touched:
+            attempt(lambda: s0.circuit)
+        before = attempt(lambda: (hash(s0), repr(s0)))
+        ok, c = attempt(lambda: do_copy(s0))
+        ctx.case(("copy", "cb", n, bits, bt, tuple(canon_spec(g) for g in hist), op, twice, touched), nontrivial=True)
+        ctx.count("obj.copy", f"cb {op}: phase {d[2]}")
+        if not ok:
+            ctx.witness("copy-rejects", f"{op} of a ComputationalBasisState raised {c}", inp)
+            return
+        if not isinstance(c, ComputationalBasisState) or read_descr(c) != d:
+            ctx.witness("copy-changes-state", f"the copy reads (qubit_count, bits, phase) = {read_descr(c) if isinstance(c, ComputationalBasisState) else type(c).__name__}; "
+                                              f"the original is {d} = the vector the gates give", inp)
+            return
+        same = attempt(lambda: (c == s0, s0 == c, c != s0, hash(c) == hash(s0), repr(c) == repr(s0), {s0: 1}.get(c)))
+        if same != (True, (True, True, False, True, True, 1)):
+            ctx.witness("copy-changes-state", f"(copy == orig, orig == copy, copy != orig, equal hashes, equal repr, dict hit) = {same[1]}", inp)
+        okw, w = attempt(lambda: orc.sparse_run(c.circuit.gates, None))
+        if not okw or w is None or c.circuit.qubit_count != n or orc.sparse_phase_defect(w, orc.sparse_basis(d[1], 0)) > NUM_TOL:
+            ctx.witness("basis-circuit", "the copy's .circuit does not prepare the tracked basis state", inp)
+        # the chain continues on the copy
+        more = [rand_pauli_gate(rng, n)[0] for _ in range(rng.randint(1, 4))]
+        inp2 = dict(inp, more=describe_gates(more))
+        ok2, c2 = attempt(lambda: c.with_gates_applied(real_seq(rng.choice(["L", "T", f"C{n}"]), more)) if len(more) > 1 or rng.random() < 0.5
+                          else c.with_pauli_gate_applied(real_seq("L", more)[0]))
+        d2 = indep_descr(n, bits, real_seq("L", hist + more))
+        if not ok2:
+            ctx.witness("pauli-track-rejects", f"a valid Pauli gate list applied to the copy is rejected: {c2}", inp2)
+        elif not isinstance(c2, ComputationalBasisState) or read_descr(c2) != d2:
+            ctx.witness("pauli-track", f"bookkeeping continued on the copy gives {read_descr(c2) if isinstance(c2, ComputationalBasisState) else type(c2).__name__}, the gates give {d2}", inp2)
+        if n <= 5:
+            gen = mixed_specs(rng, n, 1, 3)
+            okg, g = attempt(lambda: c.with_gates_applied(real_seq("L", gen)))
+            okv, dd = (False, g) if not okg else attempt(lambda: orc.phase_defect(full_vec(g, n), orc.run_circuit(n, real_seq("L", gen), orc.basis(n, d[1], d[2]))))
+            if not okv or dd > NUM_TOL:
+                ctx.witness("derive-general", f"the general state derived from the copy is not gates·(i^phase|bits>) up to a global phase ({dd})", dict(inp, more=describe_gates(gen)))
+        # the copy as an argument of the superposition builder (either side)
+        ob = d[1] ^ (1 << rng.randrange(min(n, 64)))
+        hb = [rand_pauli_gate(rng, n)[0] for _ in range(rng.randint(0, 3))]
+        okb, sb = attempt(lambda: chain_derive(rng, n, ob, hb, rand_bits_type(rng, n, partner=bt)))
+        if okb and isinstance(sb, ComputationalBasisState):
+            db = indep_descr(n, ob, real_seq("L", hb))
+            x = d[1] ^ db[1]
+            theta, phi = rand_angle(rng), rand_angle(rng)
+            first = rng.random() < 0.5
+            da_, db_ = (d, db) if first else (db, d)
+            tgt = orc.sparse_target(da_[1], da_[2], db_[1], db_[2], theta, phi)
+            nt = orc.sparse_norm(tgt)
+            if x and x % (1 << 64) and nt > 1e-3:
+                tgt = {k: z / nt for k, z in tgt.items()}
+                inp3 = dict(inp, copy_is="state_a" if first else "state_b", other={"bits": ob, "gates": describe_gates(hb)}, theta=theta, phi=phi)
+                oks, st = attempt(lambda: comp_basis_superposition(c, sb, theta, phi) if first else comp_basis_superposition(sb, c, theta, phi))
+                okw, w = (False, st) if not oks else attempt(lambda: orc.sparse_run(st.circuit.gates, None))
+                if not oks:
+                    ctx.witness("superposition-rejects", f"comp_basis_superposition raised {st} with a copied state", inp3)
+                elif not okw or w is None or orc.sparse_phase_defect(w, tgt) > NUM_TOL:
+                    ctx.witness("superposition-state", "with a copied state as argument the circuit does not prepare cosθ·i^pa|a> + e^(iφ)sinθ·i^pb|b> up to a global phase",
+                                dict(inp3, circuit=canon_real_gates(st.circuit.gates)[:400]))
+        # the original is untouched by all of this
+        if read_descr(s0) != d or attempt(lambda: (hash(s0), repr(s0))) != before or attempt(lambda: s0 == c) != (True, True):
+            ctx.witness("derive-mutates-original", "copying a basis state / deriving from the copy changed the original", inp)
+        return
+    n = rng.choice([1, 2, 3, 4])
+    specs = mixed_specs(rng, n, 0, 4)
+    v0 = small_vec(rng, n)
+    inp = {"class": "GeneralCircuitQuantumState" if kind == "general" else "QuantumStateVector", "n": n, "gates": describe_gates(specs), "copy": op, "copied_twice": twice}
+    if kind == "vector":
+        inp["vector"] = [str(complex(z)) for z in v0]
+    ok, st = attempt(lambda: GeneralCircuitQuantumState(n, real_seq(f"C{n}", specs)) if kind == "general" else QuantumStateVector(n, v0.copy(), real_seq(f"F{n}", specs)))
+    if not ok:
+        return
+    ctx.case(("copy", kind, n, tuple(canon_spec(g) for g in specs), op, twice), nontrivial=True)
+    ctx.count("obj.copy", f"{kind} {op}")
+    okb, before = attempt(lambda: (full_vec(st, n), canon_real_gates(st.circuit.gates)))
+    ok, c = attempt(lambda: do_copy(st))
+    if not ok:
+        ctx.witness("copy-rejects", f"{op} of a {inp['class']} raised {c}", inp)
+        return
+    okr, got = attempt(lambda: (type(c) is type(st), c.qubit_count, c.circuit.qubit_count, canon_real_gates(c.circuit.gates),
+                                None if kind == "general" else bool(np.array_equal(np.array(c.vector, dtype=complex), v0))))
+    if not okb or not okr or got != (True, n, n, before[1], None if kind == "general" else True):
+        ctx.witness("copy-changes-state", f"the copy reads (same class, qubit_count, circuit.qubit_count, gates, vector equal) = {str(got)[:300]}", inp)
+        return
+    more = mixed_specs(rng, n, 1, 3)
+    okd, c2 = attempt(lambda: c.with_gates_applied(real_seq(rng.choice(["L", "T", f"C{n}"]), more)))
+    okv, vs = (False, c2) if not okd else attempt(lambda: (full_vec(c2, n), orc.run_circuit(n, real_seq("L", more), before[0])))
+    dd = 9.0 if not okv else (float(np.max(np.abs(vs[0] - vs[1]))) if kind == "vector" else orc.phase_defect(vs[0], vs[1]))
+    if dd > NUM_TOL:
+        ctx.witness("derive-general", f"the state derived from the copy is not gates·(original state) ({c2 if not okd else dd})", dict(inp, more=describe_gates(more)))
+    after = attempt(lambda: (full_vec(st, n), canon_real_gates(st.circuit.gates)))
+    if not after[0] or after[1][1] != before[1] or not np.array_equal(after[1][0], before[0]):
+        ctx.witness("derive-mutates-original", f"copying a {inp['class']} / deriving from the copy changed the original", inp)
+
+
 def k_objects(ctx: Ctx):
     rng = ctx.rng
     parts = [(obj_eq_hash, ctx.n(160, 5000)), (obj_constructors, ctx.n(200, 5000)), (obj_entry_points, ctx.n(200, 5000)),
-             (obj_angle_forms, ctx.n(120, 4000)), (obj_arg_reuse, ctx.n(120, 4000))]
+             (obj_angle_forms, ctx.n(120, 4000)), (obj_arg_reuse, ctx.n(120, 4000)), (obj_copies, ctx.n(250, 6000))]
     for fn, k in parts:
         for _ in range(k):
             try:
@@ -1850,7 +2053,8 @@ def run(ctx: Ctx, replay=None) -> int:
                 "every history; plus the property on the real code against oracle/c16_state.py (numpy, n ≤ 6; counted in "
                 "evaluations only); plus K5 (real code vs restated behaviour): == / hash / repr of basis states, state "
                 "constructors and their error branches, quantum_state / apply_circuit, θ/φ argument forms, caller-reused "
-                "argument objects, bit_length / parity_sign_of_bits")
+                "argument objects, bit_length / parity_sign_of_bits; bit patterns handed over as numpy integer scalars; "
+                "state handles replaced by copy.copy / copy.deepcopy / pickle round trips inside the derivation chains")
     ctx.trusted = TRUSTED
     ctx.assumptions = [
         "qubit counts and indices are naturals, bits and phase counters Python ints (ComputationalBasisState(-1) is out of scope)",
